@@ -658,12 +658,51 @@ def unit_logsumexp(ctx):
                           found_input=not ok_def, unit=u.name, expected=ms, observed=got, broken="correspondence logsumexp / theorem C17_logsumexp_shift")
 
 
+def unit_contrastive_bounded_support(ctx):
+    """A conditional model whose SUPPORT depends on the condition (q(x|c) = c + Exponential): contrastive rows outside the support have
+    logit -inf and contribute exp(-inf) = 0 to the softmax normaliser, so the defining cross-entropy is finite and >= 0.  Oracle
+    only, n_contrastive = batch - 1 (every row uses all the other rows: independent of the index draw).  (Seeded change C17d.)"""
+    import equinox as eqx
+    import jax.numpy as jnp
+    import jax.random as jr
+    from scipy.special import logsumexp as np_lse
+    from flowjax.bijections import AdditiveCondition
+    from flowjax.distributions import Exponential, Normal, Transformed
+    from flowjax.train.losses import ContrastiveLoss
+
+    u = ctx.unit("contrastive-bounded-support", "ContrastiveLoss on q(x|c) = c + Exponential(rate) with an N(0,1) prior: contrastive logits of -inf; the loss vs the "
+                                                "NumPy softmax cross-entropy over all other rows; non-trivial = at least one -inf contrastive logit")
+    rng = ctx.rng
+    for rep in range(4 if ctx.quick else 40):
+        dim, batch = int(rng.integers(1, 4)), int(rng.integers(4, 12))
+        rate = np.exp(rng.normal(0.8, 0.4, dim))
+        dist = Transformed(Exponential(jnp.asarray(rate)), AdditiveCondition(lambda c: c, shape=(dim,), cond_shape=(dim,)))
+        prior = Normal(jnp.zeros(dim), jnp.ones(dim))
+        key = jr.PRNGKey(int(rng.integers(0, 2**31)))
+        x = rng.normal(0, 1, (batch, dim))
+        cond = x - rng.exponential(1.0, (batch, dim)) / 4.0
+        params, static = eqx.partition(dist, eqx.is_inexact_array)
+        got = float(ContrastiveLoss(prior, n_contrastive=batch - 1)(params, static, jnp.asarray(x), jnp.asarray(cond), key))
+        rows, n_out = [], 0
+        for i in range(batch):
+            logits = np.asarray(dist.log_prob(jnp.asarray(x), jnp.asarray(cond[i])), dtype=float) - np.asarray(prior.log_prob(jnp.asarray(x)), dtype=float)
+            n_out += int(np.isneginf(np.delete(logits, i)).sum())
+            rows.append(-(logits[i] - np_lse(logits)))
+        ref = float(np.mean(rows))
+        u.count((rep, dim, batch, x.tolist()), nontrivial=n_out > 0, tag=f"dim{dim}")
+        if not (np.isfinite(got) and abs(got - ref) <= 1e-9 * max(1.0, abs(ref))):
+            ctx.violation(sig="contrastive:bounded-support", what=f"ContrastiveLoss = {got!r} but the mean softmax cross-entropy over all other rows is {ref!r} "
+                          f"(q(x|c) = c + Exponential, batch {batch}, dim {dim}, {n_out} contrastive logits are -inf)",
+                          case=dict(unit="contrastive-bounded-support", dim=dim, batch=batch, rate=rate.tolist(), x=x.tolist(), condition=cond.tolist(), key=np.asarray(key).tolist()),
+                          found_input=True, unit=u.name, expected=ref, observed=got, broken="contrastive-bounded-support / C17_contrastive_spec")
+
+
 def run(ctx):
     import os
     import time
     _jx()
     only = os.environ.get("VERIF_C17_UNITS")   # development aid: run a subset of the units (default: all)
-    for f in (unit_logsumexp, unit_idxs, unit_ml, unit_contrastive, unit_elbo):
+    for f in (unit_logsumexp, unit_idxs, unit_ml, unit_contrastive, unit_contrastive_bounded_support, unit_elbo):
         if only and f.__name__[5:] not in only.split(","):
             continue
         t0 = time.time()
